@@ -245,7 +245,12 @@ def c16_state(ctx):
     state_discipline(ctx, ('bespokeasm.assembler.pretty_printer', 'bespokeasm.assembler.engine'))
 
 
-RULES = [c16_1, c16_2, c16_3, c16_4, c16_mute, c16_state]
+def c16_order(ctx):
+    """The compact hex format takes positions from the order of the list: that order is the address order C04.1 checks."""
+    from rules.c04 import c04_1
+    c04_1(ctx)
+
+RULES = [c16_1, c16_2, c16_3, c16_4, c16_mute, c16_state, c16_order]
 
 _IH = 'assembler/pretty_printer/intelhex.py'
 _MH = 'assembler/pretty_printer/minhex.py'
